@@ -141,7 +141,11 @@ class CheckC09(core.Check):
                 r.foreign_dev("C02", "session did not reach transport phase")
                 return r
             if e.panic:
-                r.foreign_dev("C10", "panic in %s" % e.op)
+                at_max = (kind.startswith("st_") and info == MAXN) or (kind == "w" and sn.get(p) == MAXN) or (kind == "deliver" and rn.get(p) == MAXN)
+                if at_max:
+                    r.viol("C09|panic-at-max|%s" % e.op, "%s: %s at nonce 2^64-1 panicked instead of failing with State(Exhausted): %s" % (tag, e.op, e.res[:120]))
+                else:
+                    r.foreign_dev("C10", "panic in %s" % e.op)
                 return r
             r.stats["ops_judged"] += 1
             if kind.startswith("st_"):
